@@ -85,6 +85,12 @@ META = {
         "numpy on the dense array is the oracle; documented 1e-8 identity shortcut of transforms allowed for; zero-length runs emitted by the encoders are lossless and only counted.",
         "DESIGN.md section 4 C13",
     ),
+    "C14": (
+        "hypothesis drawings constructed with known nesting (star polygons in grid cells, concentric bands to depth 4, optional arcs) and their variants (random splitting into entities, permutation, reversal, duplicated joints); construction oracle + metamorphic equality between variants, cold reconstruction under transforms, dxf / svg / dict round trips",
+        "Generated search: families of disjoint / nested simple closed curves built so that polygon count, body count, shell->hole nesting, shoelace area (+ circular segments) and perimeter are known exactly; every variant (curves cut into k polyline / arc entities, entities permuted and individually reversed, joints shared or duplicated) must rebuild the same polygons, nesting, area and length (1e-9 for polygons; documented discretisation slack for arcs); similarity transforms incl. mirrors applied after any subset of derived values was read must equal a cold path on the transformed vertices with area*s^2 and length*s; export and re-import through dxf, svg and dict preserve counts, nesting, area and length to the format's coordinate precision. Exploration only.",
+        "regions smaller than the documented path merge tolerance (tol_path.merge x scale) are not generated; arc segment counts depend on Path.scale, so arc quantities get discretisation slack under rotations.",
+        "DESIGN.md section 4 C14",
+    ),
     "C15": (
         "hypothesis parameter generators for every creation function and primitive (incl. minimum section counts, partial revolutions, holes, mirrored placements) + stateful parameter-edit sequences; closed-form oracles (inscribed n-gon prisms / pyramids, polygon moments, smooth limits)",
         "Generated search: box, icosphere, uv_sphere, cylinder, cone, capsule, annulus, torus, extrusions of polygons with holes (+-height), revolutions incl. partial with caps, sweeps along open/closed paths, the three triangulation engines, and the Box/Sphere/Cylinder/Capsule/Extrusion primitives for parameters across their valid ranges with rigid and mirrored placements; every result must be watertight, consistently wound, positive, of the right Euler number and single-bodied, with volume / area / bounds / inertia equal to independent closed forms for the tessellation (exact for flat-faced shapes, inscribed-polygon formulas for revolved ones, convergence for curved ones); after every edit in a sequence of primitive parameter edits the mesh must equal that of a fresh primitive. Exploration only.",
